@@ -112,7 +112,9 @@ func errFull(err error) string {
 	if je, ok := err.(kit.JSchemaError); ok && je.IncorrectUserType() != "" {
 		s += ":" + hexs([]byte(je.IncorrectUserType()))
 	}
-	return s
+	// the message text is part of the observable result (C09): a short hash of it
+	h := sha1.Sum([]byte(guard(func() string { return err.Error() })))
+	return s + "~" + hex.EncodeToString(h[:4])
 }
 
 func guard(f func() string) (res string) {
@@ -240,5 +242,19 @@ func init() {
 			return fmt.Sprintf("check=%s len=%s used=%s example=%s ast=%s openapi=%s", c, opLen(s), u, e, as, o)
 		}
 		return "badcase"
+	}
+}
+
+func init() {
+	handlers["projmsg"] = func(a []string) string {
+		p, _ := parseProject(a)
+		s, err := p.build()
+		if err != nil {
+			return "build=" + err.Error()
+		}
+		if err := s.Check(); err != nil {
+			return strings.ReplaceAll(err.Error(), "\n", "\\n")
+		}
+		return "ok"
 	}
 }
